@@ -388,6 +388,99 @@ def describe(case: dict, cat: dict) -> str:
 
 
 # ---------------------------------------------------------------------------------------------------
+# derivation histories (spec/FiltersTree.tla): every node is observed after ALL derivations were made
+# ---------------------------------------------------------------------------------------------------
+def observe_tree(case: dict, cat: dict) -> dict:
+    """Perform the derivations of the history through the public API (schema.include / exclude, or the same on a lazy fixture
+    schema) and then observe every node, root first: offered operations and statistic."""
+    st = _setup(cat)
+    sch = st["schemathesis"]
+    lab = st["labels"]
+    fixture = sch.openapi.from_dict(st["raw"])
+    root = fixture if case["door"] == "py" else sch.pytest.from_fixture("fixture_schema")
+    nodes = [root]
+    out = {"door": case["door"], "nodes": case["nodes"], "err": 0, "exc": "", "vecs": [], "stats": []}
+    for k, n in enumerate(case["nodes"], 1):
+        try:
+            nodes.append(_apply(nodes[n["p"]], n["m"], py_call(cat["filters"][n["f"] - 1]), st))
+        except Exception as exc:  # the spec only makes derivations the API accepts
+            out["err"], out["exc"] = k, "%s: %s" % (type(exc).__name__, exc)
+            return out
+
+    class Request:
+        def getfixturevalue(self, name):
+            return fixture
+
+    def test_function(case):
+        pass
+
+    for node in nodes:
+        schema = node if case["door"] == "py" else st["lazy"].get_schema(
+            request=Request(), name="fixture_schema", filter_set=node.filter_set, test_function=test_function)
+        vec, foreign = vector(lab, [r.ok().label for r in schema.get_all_operations() if isinstance(r, st["Ok"])])
+        s = schema.statistic
+        out["vecs"].append(vec)
+        out["stats"].append({"sel": s.operations.selected, "total": s.operations.total + foreign,
+                             "lsel": s.links.selected, "ltotal": s.links.total})
+    return out
+
+
+def tree_disagreements(case: dict, obs: dict) -> set[tuple[int, int, str]]:
+    """Mirrors FiltersTreeJudge.tla: (node, operation, kind); node 0 is the root."""
+    if obs["err"]:
+        return {(obs["err"], 0, "raised")}
+    out: set = set()
+    for n, (ex, st, v, s) in enumerate(zip(case["expect"], case["stat"], obs["vecs"], obs["stats"])):
+        for o, (x, e) in enumerate(zip(v, ex), 1):
+            if e != -1 and x != e:
+                out.add((n, o, "leak" if x == 1 else "dropped"))
+        for name, got, want in (("ops-selected", s["sel"], st["sel"]), ("ops-total", s["total"], st["total"]),
+                                ("links-selected", s["lsel"], st["lsel"]), ("links-total", s["ltotal"], st["ltotal"])):
+            if want != -1 and got != want:
+                out.add((n, 0, name))
+    return out
+
+
+def tree_signature(case: dict, n: int, kind: str) -> str:
+    """Derivation-history class of the wrong node: was anything derived after it (then a later derivation changed it) or is it
+    the node derived last (then its own chain is wrong)."""
+    if kind == "raised":
+        return "C07:%s:derivation:derive-raised" % case["door"]
+    cls = "changed-by-later-derivation" if n < len(case["nodes"]) else "own-chain"
+    return "C07:%s:derivation:%s:%s" % (case["door"], cls, "selection" if kind in ("leak", "dropped") else kind)
+
+
+def tree_findings(case: dict, obs: dict) -> list[tuple[str, int, int, str]]:
+    """Signatures of a history: a node whose selection is wrong is reported once; its statistic is reported on its own only when
+    it is also inconsistent with the operations the node actually offers."""
+    dis = sorted(tree_disagreements(case, obs))
+    wrong_sel = {n for n, o, k in dis if k in ("leak", "dropped")}
+    out, seen = [], set()
+    for n, o, k in dis:
+        if k not in ("leak", "dropped", "raised") and n in wrong_sel:
+            v, s = obs["vecs"][n], obs["stats"][n]
+            links_offered = sum(1 for l in _CAT.get("links", []) if v[l["src"] - 1] and v[l["tgt"] - 1])
+            if (k == "ops-selected" and s["sel"] == sum(v)) or (k == "links-selected" and s["lsel"] == links_offered):
+                continue
+        sig = tree_signature(case, n, k)
+        if sig not in seen:
+            seen.add(sig)
+            out.append((sig, n, o, k))
+    return out
+
+
+def describe_tree(case: dict, cat: dict) -> str:
+    parts = []
+    for k, n in enumerate(case["nodes"], 1):
+        parts.append("n%d = n%d.%s(**%s)" % (k, n["p"], n["m"], json.dumps(py_call(cat["filters"][n["f"] - 1]), sort_keys=True)))
+    return "door=%s n0 = %s; %s" % (case["door"], "from_dict(RAW)" if case["door"] == "py" else "from_fixture(unfiltered)", "; ".join(parts))
+
+
+def _work_tree(item: str) -> dict:
+    return observe_tree(json.loads(item), _CAT)
+
+
+# ---------------------------------------------------------------------------------------------------
 # expensive sites: real pytest process, real engine, real CLI
 # ---------------------------------------------------------------------------------------------------
 def _chain_src(cat: dict, calls: list[tuple[str, int]]) -> str:
@@ -653,7 +746,7 @@ def run(ctx: Ctx) -> Outcome:
     good = [i for i in range(len(cases)) if i not in bad_set]
     rich = sorted({i for i, _ in lazy_s + eager_s + engine_s + cli_s} - bad_set)
     rich_set = set(rich)
-    judged_idx = bad[:20000] + rich + common.sample(rng, [i for i in good if i not in rich_set], 4000 if ctx.quick else 30000)
+    judged_idx = bad[:20000] + rich + common.sample(rng, [i for i in good if i not in rich_set], 2500 if ctx.quick else 30000)
     obs_file = ctx.path("obs.json")
     tlc.write_json(obs_file, [{k: v for k, v in observed[i].items() if k != "note"} for i in judged_idx])
     jres = tlc.require_ok(tlc.run_tlc("FiltersJudge", "FiltersJudge.cfg", env={"OBS_FILE": obs_file}, timeout=3000), "judge")
@@ -674,21 +767,72 @@ def run(ctx: Ctx) -> Outcome:
                     {v["site"]: v["vec"] for v in observed[i]["vecs"]}, observed[i]["stats"], cases[i]["stat"], describe(cases[i], cat)),
                 {"kind": "element", "case": cases[i], "cat": cat,
                  "sites": sorted({v["site"] for v in observed[i]["vecs"]} | {s["site"] for s in observed[i]["stats"]})}))
+    # ---------------- derivation histories ----------------
+    tree_cfgs = ["FiltersTree_quick.cfg"] if ctx.quick else ["FiltersTree_thorough.cfg", "FiltersTree_wide.cfg"]
+    tree_stats = {"states": 0, "transitions": 0, "histories": 0, "judged": 0, "bad": 0, "tlc_s": 0.0, "replay_s": 0.0, "judge_s": 0.0}
+    tree_sample = None
+    for tcfg in tree_cfgs:
+        titems: list[str] = []
+        tres = tlc.require_ok(tlc.run_tlc(
+            "FiltersTree", tcfg, workers=1, timeout=3000, want_prints=False,
+            on_json=lambda tag, d: titems.append(json.dumps(d, separators=(",", ":"))) if tag == "TREE" else None), "FiltersTree enumeration")
+        for inv in tres.violated:
+            out.violations.append(Violation("C07:spec:" + inv, "design invariant %s violated in FiltersTree.tla" % inv,
+                                            {"kind": "spec", "invariant": inv, "trace": tres.counterexample[:60]}))
+        t1 = time.time()
+        tobs = common.pmap(_work_tree, titems)
+        tree_stats["replay_s"] += time.time() - t1
+        tcases = [json.loads(x) for x in titems]
+        tbad = [k for k, (c, o) in enumerate(zip(tcases, tobs)) if tree_disagreements(c, o)]
+        tbad_set = set(tbad)
+        tjudged = tbad[:10000] + common.sample(rng, [k for k in range(len(tcases)) if k not in tbad_set], 800 if ctx.quick else 10000)
+        tfile = ctx.path("tree_obs.json")
+        tlc.write_json(tfile, [{k2: v for k2, v in tobs[k].items() if k2 != "exc"} for k in tjudged])
+        tj = tlc.require_ok(tlc.run_tlc("FiltersTreeJudge", "FiltersTreeJudge.cfg", env={"OBS_FILE": tfile}, timeout=3000), "tree judge")
+        t_tlc = {(p[1], p[2], p[3], p[4]) for p in tj.prints if isinstance(p, list) and p and p[0] == "DISAGREE"}
+        t_py = {(m, n, o, kd) for m, k in enumerate(tjudged, 1) for n, o, kd in tree_disagreements(tcases[k], tobs[k])}
+        if t_tlc != t_py:
+            raise tlc.TLCFailure("tree judge (TLC) and exporter disagree on %d cells: %s" % (len(t_tlc ^ t_py), sorted(t_tlc ^ t_py)[:5]))
+        for k in tbad:
+            for sig, n, o, kd in tree_findings(tcases[k], tobs[k]):
+                per_sig[sig] = per_sig.get(sig, 0) + 1
+                if per_sig[sig] > 25:
+                    continue
+                out.violations.append(Violation(
+                    sig, "after all derivations node n%d %s%s: expected %s observed %s, statistic %s vs expected %s%s; %s" % (
+                        n, kd, (" for " + labels(cat)[o - 1]) if o else "",
+                        tcases[k]["expect"][n] if not tobs[k]["err"] else "-", tobs[k]["vecs"][n] if not tobs[k]["err"] else "-",
+                        tobs[k]["stats"][n] if not tobs[k]["err"] else "-", tcases[k]["stat"][n] if not tobs[k]["err"] else "-",
+                        (" (" + tobs[k]["exc"] + ")") if tobs[k]["err"] else "", describe_tree(tcases[k], cat)),
+                    {"kind": "tree", "case": tcases[k], "cat": cat}))
+        tree_stats["states"] += tres.distinct
+        tree_stats["transitions"] += tres.generated
+        tree_stats["histories"] += len(tcases)
+        tree_stats["judged"] += len(tjudged)
+        tree_stats["bad"] += len(tbad)
+        tree_stats["tlc_s"] += tres.wall_s
+        tree_stats["judge_s"] += tj.wall_s
+        if tree_sample is None and tcases:
+            k = rng.randrange(len(tcases))
+            tree_sample = {"history": describe_tree(tcases[k], cat), "expected_per_node": tcases[k]["expect"], "observed_per_node": tobs[k]["vecs"]}
     nontrivial = sum(1 for c in cases if 0 in c["expect"])
     shown = common.sample(rng, [i for i in rich if len(observed[i]["vecs"]) > 2] or good, 3)
     out.coverage = {
-        "states": res.distinct,
-        "transitions": res.generated,
-        "traces_validated_against_impl": len(judged_idx),
+        "states": res.distinct + tree_stats["states"],
+        "transitions": res.generated + tree_stats["transitions"],
+        "traces_validated_against_impl": len(judged_idx) + tree_stats["judged"],
         "samples": [{"element": describe(cases[i], cat), "expected": cases[i]["expect"], "expected_stat": cases[i]["stat"],
                      "observed": {v["site"]: v["vec"] for v in observed[i]["vecs"]}, "observed_stat": observed[i]["stats"],
-                     "state_machine_links": observed[i]["pairs"]} for i in shown],
-        "evaluations": len(cases),
-        "distinct_nontrivial": nontrivial,
+                     "state_machine_links": observed[i]["pairs"]} for i in shown] + ([tree_sample] if tree_sample else []),
+        "evaluations": len(cases) + tree_stats["histories"],
+        "distinct_nontrivial": nontrivial + tree_stats["histories"],
+        "derivation_histories": {k2: (round(v, 1) if isinstance(v, float) else v) for k2, v in tree_stats.items()},
         "rule": "every filter set reachable in Filters.tla under %s through the python, CLI and lazy-fixture doors (TLC-enumerated), each "
                 "built with the real API and observed at get_all_operations / statistic / as_state_machine; stratified samples of them "
                 "additionally under real pytest (%d), the real engine (%d) and the real CLI (%d) with the server log as observation; "
-                "non-trivial = at least one operation must not be tested" % (cfg, len(lazy_s + eager_s), len(engine_s), len(cli_s)),
+                "non-trivial = at least one operation must not be tested; plus every derivation history (tree of include/exclude "
+                "derivations on eager and lazy schemas) reachable in FiltersTree.tla under %s, every node observed after all derivations" % (
+                    cfg, len(lazy_s + eager_s), len(engine_s), len(cli_s), "+".join(tree_cfgs)),
         "exhaustive": True,
         "by_door": {d: sum(1 for c in cases if c["door"] == d) for d in ("py", "cli", "lazy")},
         "undecided_cells_skipped": sum(c["expect"].count(-1) for c in cases),
@@ -711,6 +855,7 @@ def run(ctx: Ctx) -> Outcome:
         "lazy fixture with include filters on both the fixture schema and the lazy schema: union and successive selection are both "
         "accepted readings; operations where they differ are not judged",
         "`!=` expressions on a pointer that does not resolve are not judged",
+        "derivation histories: nodes are observed once, after all derivations, at get_all_operations() and statistic",
     ]
     return out
 
@@ -722,6 +867,11 @@ def replay(ctx: Ctx, data: dict) -> Outcome:
         return out
     case, cat = data["case"], data["cat"]
     _CAT = cat
+    if data.get("kind") == "tree":
+        tobs = observe_tree(case, cat)
+        for sig, n, o, kd in tree_findings(case, tobs):
+            out.violations.append(Violation(sig, "node n%d %s operation %d: %s %s" % (n, kd, o, tobs["exc"], describe_tree(case, cat)), data))
+        return out
     obs = observe(case, cat)
     sites = set(data.get("sites", []))
     if "pytest" in sites or "lazy-pytest" in sites:
@@ -758,7 +908,21 @@ def selftest(ctx: Ctx) -> bool:
                    (4, "sm", 0, "links-offered-vs-reported"), (5, "iter", 6, "dropped")])
     if dis != want:
         print("selftest: judge printed", dis, "expected", want)
-    return dis == want
+    # derivation histories: n1 = n0.include(tag=users); n2 = n1.exclude(method=Delete): a polluted parent must be rejected
+    nodes = [{"p": 0, "m": "include", "f": 11}, {"p": 1, "m": "exclude", "f": 1}]
+    full = {"sel": 7, "total": 7, "lsel": 4, "ltotal": 4}
+    s1 = {"sel": 3, "total": 7, "lsel": 2, "ltotal": 4}
+    s2 = {"sel": 1, "total": 7, "lsel": 0, "ltotal": 4}
+    tgood = {"door": "py", "nodes": nodes, "err": 0, "vecs": [[1] * 7, [1, 1, 1, 0, 0, 0, 0], [0, 0, 1, 0, 0, 0, 0]], "stats": [full, s1, s2]}
+    tbad = dict(tgood, vecs=[[1] * 7, [0, 0, 1, 0, 0, 0, 0], [0, 0, 1, 0, 0, 0, 0]], stats=[full, s2, s2])  # parent took the child's exclude
+    traised = dict(tgood, err=2, vecs=[], stats=[])
+    tlc.write_json(f, [tgood, tbad, traised])
+    r = tlc.require_ok(tlc.run_tlc("FiltersTreeJudge", "FiltersTreeJudge.cfg", env={"OBS_FILE": f}), "selftest tree")
+    tdis = sorted(tuple(p[1:]) for p in r.prints if isinstance(p, list) and p and p[0] == "DISAGREE")
+    twant = sorted([(2, 1, 1, "dropped"), (2, 1, 2, "dropped"), (2, 1, 0, "ops-selected"), (2, 1, 0, "links-selected"), (3, 2, 0, "raised")])
+    if tdis != twant:
+        print("selftest: tree judge printed", tdis, "expected", twant)
+    return dis == want and tdis == twant
 
 
 def main(argv=None) -> int:
